@@ -180,7 +180,10 @@ fn ty_short_d<'tcx>(tcx: TyCtxt<'tcx>, ty: Ty<'tcx>, d: usize) -> String {
 
 /// cnames of every ADT / trait object / closure mentioned anywhere inside `ty`.
 fn ty_mentions<'tcx>(tcx: TyCtxt<'tcx>, ty: Ty<'tcx>, out: &mut BTreeSet<String>) {
-    for ga in ty.walk() {
+    // Types named only inside a function signature (fn pointers, dyn Fn/Future objects) are not owned data:
+    // record the opaque marker and do not descend.
+    let mut walker = ty.walk();
+    while let Some(ga) = walker.next() {
         if let Some(t) = ga.as_type() {
             match t.kind() {
                 ty::Adt(def, _) => {
@@ -190,9 +193,14 @@ fn ty_mentions<'tcx>(tcx: TyCtxt<'tcx>, ty: Ty<'tcx>, out: &mut BTreeSet<String>
                     if let Some(p) = preds.principal_def_id() {
                         out.insert(format!("dyn {}", cname(tcx, p)));
                     }
+                    walker.skip_current_subtree();
                 }
                 ty::FnPtr(..) => {
                     out.insert("fnptr".to_string());
+                    walker.skip_current_subtree();
+                }
+                ty::FnDef(..) | ty::Closure(..) => {
+                    walker.skip_current_subtree();
                 }
                 ty::RawPtr(..) => {
                     out.insert("rawptr".to_string());
